@@ -136,3 +136,76 @@ Theorem C06_unescape_surrogate_orig_refuted :
   unescape surrogate_witness = Some [128591%N] /\ unescape_orig surrogate_witness = None.
 Proof. exact (conj unescape_surrogate_witness unescape_orig_surrogate_witness). Qed.
 Print Assumptions C06_unescape_surrogate_orig_refuted.
+
+(* ================================================================== the full model of the parser (coq/C06/Actions.v, ActionsProofs.v).
+   Owner of this part: ext-actions.  parse_full = the loop of Parser::parse over the regenerated tables with all 90 reduce actions of
+   parser.rs on the node stack; the check compares it node by node with the real parser on every generated case of every construct. *)
+From Coq Require Import ZArith String.
+From DV Require Import Gen.LalrTables C06.Actions C06.ActionsProofs.
+
+(* every action name in the reduce arms of lalr.rs (regenerated on this run) is one of the modelled actions *)
+Theorem C06_actions_all_known :
+  forallb (fun p => match act_of_name (snd p) with Some _ => true | None => false end) rule_actions = true.
+Proof. exact all_actions_known. Qed.
+Print Assumptions C06_actions_all_known.
+
+(* STACK SAFETY of the semantic actions, rule by rule, for ALL concrete stacks (finite sweep over the 150 rules of feel.y as regenerated
+   with the tables + soundness of the actions on node kinds for every stack).  Every grammar symbol has a declared effect on the node
+   stack (ActionsProofs.sigs: the kinds (P, Q) it consumes from below and leaves; a kind is what the actions test with `if let`:
+   CommaList, Context, ExpressionList, ... or anything else).  For every rule `lhs: rhs`, from every P the left-hand side may consume:
+   the effects of the right-hand side symbols compose (stacks_after gives the possible known tops st of the node stack), and on EVERY
+   node stack ns whose top has the kinds st (ntyped), with token values of the right-hand side symbols -- and, for a mid-rule action, of
+   the symbols in front of it in its rule -- on the value stack (vtyped), the action of the rule returns Ok (no err_pop, no index out of
+   bounds, no node dropped by an `if let`), touches nothing below the known part, and leaves kinds q with (P, q) a declared effect of
+   the left-hand side (sound_step).  Also: the rule's length in feel.y is the YY_R2 entry the driver pops.
+   What is NOT formalised: the invariant of the LR automaton (at a reduction the symbols on the stack are the rule's right-hand side),
+   by which this rule-by-rule statement extends to whole parses; the check compares whole parses with the real parser instead. *)
+Theorem C06_actions_stack_safe :
+  forall r lhs rhs, In (r, (lhs, rhs)) grammar_rules ->
+  Z.of_nat (List.length rhs) = zn t_r2 r /\
+  forall p0, In p0 (preconds lhs) ->
+  exists sts, stacks_after rhs [p0] = Some sts /\
+    forall st, In st sts -> forall vs ns, vtyped (avals lhs rhs) vs -> ntyped st ns ->
+      exists q, In (p0, q) (sig_of lhs) /\ sound_step st ns (run_action r (List.length rhs) vs ns) q.
+Proof. exact actions_stack_safe. Qed.
+Print Assumptions C06_actions_stack_safe.
+
+(* the grammar read from feel.y fits the tables (rule numbers, YY_R2 lengths, YY_R1 left-hand sides), the declared effects are uniform,
+   and every rule types: the boolean the sweep evaluates *)
+Theorem C06_actions_rules_typed : all_rules_ok = true.
+Proof. exact all_rules_ok_true. Qed.
+Print Assumptions C06_actions_rules_typed.
+
+(* the abstract actions are sound for every concrete stack (the all-stacks half of the statement above) *)
+Theorem C06_actions_abstraction_sound : forall a len avs ks ks' vs ns,
+  aapply a len avs ks = Some ks' -> vtyped avs vs -> ntyped ks ns -> sound_step ks ns (apply_act a len vs ns) ks'.
+Proof. exact aapply_sound. Qed.
+Print Assumptions C06_actions_abstraction_sound.
+
+Example C06_actions_nonvacuous :
+  (nth_error grammar_rules 92 = Some (93%Z, ("list_tail", ["COMMA"; "expression"; "list_tail"]))%string /\
+   stacks_after ["COMMA"; "expression"; "list_tail"]%string [[]] = Some [[KOther]; [KCommaList; KOther]; [KContext]; [KCommaList; KContext]]) /\
+  run_action 93 3 [VState 5; VState 4; VTok tok_Comma] [ACommaList [AName 2]; AName 1; ANull] = ROk [ACommaList [AName 1; AName 2]; ANull].
+Proof. exact stack_safe_nonvacuous. Qed.
+Print Assumptions C06_actions_nonvacuous.
+
+(* ROUND TRIP of lists through the full model, end to end, for EVERY length (induction through the list_tail actions: the parser
+   shifts all elements, then folds from the right with items.insert(0, item)).  Given for each element that its tokens are read to its
+   tree where a list element stands (elem_ok: as first and as later element, within parse_full's fuel, tree not the internal
+   CommaList), parse_full reads START_EXPRESSION `[` e1 `,` ... `,` en `]` to AList [e1; ...; en].  Automaton steps are computed from
+   the regenerated tables (re-proved when lalr.rs changes). *)
+Theorem C06_list_roundtrip : forall tss es, Forall2 elem_ok tss es ->
+  parse_full (kk tok_StartExpression :: list_tokens tss) = Some (AList es).
+Proof. exact list_roundtrip. Qed.
+Print Assumptions C06_list_roundtrip.
+
+(* a list is again an element; names, numerals, strings, booleans and null are elements: hence, with no hypothesis left, every nested
+   list of atoms of any depth and width round-trips *)
+Theorem C06_list_is_element : forall tss es, Forall2 elem_ok tss es -> elem_ok (list_tokens tss) (AList es).
+Proof. exact list_elem_ok. Qed.
+Print Assumptions C06_list_is_element.
+
+Theorem C06_nested_lists_roundtrip : forall l,
+  parse_full (kk tok_StartExpression :: nl_tokens (NList l)) = Some (nl_tree (NList l)).
+Proof. exact nested_lists_roundtrip. Qed.
+Print Assumptions C06_nested_lists_roundtrip.
